@@ -145,7 +145,7 @@ NoDoubleSpendNet == \A i \in Nodes : \A t, u \in NodeAdmitted(i) : t # u =>
 (* C02 per node *)
 ConservationNet == \A i \in Nodes : LET s == NodeS(i) IN
                       /\ SumAmt(s.utxo) + SumAmt(UNION {FeeU(t) : t \in npool[i]}) = s.total
-                      /\ s.total = GenesisTotal + Award * Height(tip[i])
+                      /\ s.total = GenesisTotal + AwardsUpTo(Height(tip[i]))
 (* convergence: once every announcement has been delivered and none was lost all nodes are at the same height and
    every node stores every other node's tip *)
 Quiet == bmsgs = {} /\ ~lost
